@@ -12,6 +12,7 @@ Definition handlers : list (str * (list str -> str)) :=
     ([115; 116; 98], run_stb);     (* "stb" *)
     ([102; 115; 116], run_fst);    (* "fst" *)
     ([102; 115; 111], run_fso);    (* "fso" *)
+    ([102; 115; 102], run_fsf);    (* "fsf" *)
     ([104; 105; 115; 116], run_hist); (* "hist" *)
     ([102; 104; 105; 115; 116], run_fhist); (* "fhist" *)
     ([114; 100; 109], run_rdm);     (* "rdm" *)
